@@ -113,6 +113,12 @@ out.@fieldName = in.@fieldName
 			// always gen
 			fc.HasDeepCopyInto = true
 			fc.HasDeepCopy = true
+
+			if _, ok := x.Underlying().(*types.Map); ok {
+				// the methods generated for a defined map type take and return the map itself,
+				// also on the first run when they do not exist yet
+				fc.PtrResultOrParam = false
+			}
 		}
 		if fc.PtrResultOrParam && fc.HasDeepCopyInto {
 			return snippet.T(`
